@@ -68,10 +68,15 @@ def c19(tier, seed):
             elif ltd != day(row["cutoff"]) and len(rep.drift) < 20:
                 rep.drift.append({"clause": "cutoff-mechanism", "detail": "%s last trading date %s, model %s" % (
                     args, ltd, day(row["cutoff"]).date())})
-            ev = f.make_events()
-            if len(ev) != 1 or not isinstance(ev[0], EventContractDiscontinued) or ev[0].time != f.expiry \
-                    or ev[0].contract is not f:
-                rep.violation("events", "events/%s" % p["cls"], "%s make_events() = %r, expected one discontinuation at its expiry" % (args, ev), case)
+            # the shared simulation clock may stand anywhere when the events are generated (an earlier episode in the same
+            # process leaves it wherever it ended): before the contract's life, inside it, after its expiry
+            for clock in (datetime.min, f.expiry - timedelta(days=40), f.expiry + timedelta(days=400)):
+                ev = _under_clock(clock, f.make_events)
+                if len(ev) != 1 or not isinstance(ev[0], EventContractDiscontinued) or ev[0].time != f.expiry \
+                        or ev[0].contract is not f:
+                    rep.violation("events", "events/%s" % p["cls"], "%s make_events() = %r with the simulation clock at %s, expected one "
+                                  "discontinuation at its expiry" % (args, ev, clock), case)
+                    break
             if n <= 2:
                 rep.sample({"contract": args, "expiry": str(day(row["expiry"]).date()), "cutoff": str(day(row["cutoff"]).date()),
                             "symbol": row["symbol"]})
@@ -111,13 +116,26 @@ def c19(tier, seed):
                         if row is None or c.expiry != day(row["expiry"]) or c.symbol != row["symbol"]:
                             rep.violation("chain_member", "chain_member/%s" % cls, "chain %s %d-%d lists %s (expiry %s) which is not the contract of that month" % (cls, y0, y1, c, c.expiry), case)
                             break
-                    ev = ch.make_events()
-                    if sorted((e.time, e.contract.symbol) for e in ev) != sorted((c.expiry, c.symbol) for c in cs):
-                        rep.violation("chain_events", "chain_events/%s" % cls, "chain %s %d-%d: discontinuation events do not match one per contract at its expiry" % (cls, y0, y1), case)
+                    for clock in (datetime.min, cs[len(cs) // 2].expiry, cs[-1].expiry + timedelta(days=30)):
+                        ev = _under_clock(clock, ch.make_events)
+                        if sorted((e.time, e.contract.symbol) for e in ev) != sorted((c.expiry, c.symbol) for c in cs):
+                            rep.violation("chain_events", "chain_events/%s" % cls, "chain %s %d-%d: discontinuation events do not match one per "
+                                          "contract at its expiry (simulation clock at %s)" % (cls, y0, y1, clock), case)
+                            break
     rep.traces += nch
     rep.evaluations += nch
     rep.count("chains_compared", nch)
     return rep.finish()
+
+
+def _under_clock(clock, fn):
+    from tradingenv.contracts import AbstractContract
+    saved = AbstractContract.now
+    AbstractContract.now = clock
+    try:
+        return fn()
+    finally:
+        AbstractContract.now = saved
 
 
 def lead_check(rep, tier):
